@@ -14,6 +14,7 @@ import time
 import z3
 
 from lib import runner
+from ovld import call_next  # noqa: F401  (used by the methods of the long-history family)
 from symx.engine import Verdict
 from symx.kit import MethodSet, full_outcome
 from symx.world import World
@@ -129,11 +130,59 @@ def make_run_values(W, shape):
     return run
 
 
+def make_run_wide(W, shape):
+    """a long history over MANY argument classes (more than any bounded table would keep): after every new class the first calls are
+    repeated and must answer as they did the first time -- in particular the continuation of a call_next chain must not get lost while the
+    entry that leads to it is kept"""
+    from ovld import Ovld
+
+    N = shape["wide"]
+
+    def run(ctx):
+        class Base:
+            pass
+
+        LOG = []
+
+        def top(x: Base):
+            LOG.append((0,))
+            return ("top", call_next(x))
+
+        def mid(x: Base):
+            LOG.append((1,))
+            return ("mid", call_next(x))
+
+        def bottom(x: object):
+            LOG.append((2,))
+            return "bottom"
+        ov = Ovld()
+        ov.register(top, priority=2)
+        ov.register(mid, priority=1)
+        ov.register(bottom, priority=0)
+        classes = [type(f"S{i}", (Base,), {}) for i in range(N)]
+        firsts = [classes[i]() for i in range(3)]
+        expect = [full_outcome(lambda: ov.dispatch(v), LOG) for v in firsts]
+        ok, trace = True, []
+        for i in range(3, N):
+            full_outcome(lambda: ov.dispatch(classes[i]()), LOG)
+            for v, e in zip(firsts, expect):
+                got = full_outcome(lambda: ov.dispatch(v), LOG)
+                if got != e:
+                    ok = False
+                    if len(trace) < 4:
+                        trace.append(dict(after_classes=i + 1, repeated=type(v).__name__, got=got, first_time=e))
+        return Verdict(ok, (), dict(family="long history over many classes", classes=N, differences=trace), ["wide"], nontrivial=True)
+
+    return run
+
+
 def make_run(W, shape, known_active=None):
     from ovld import Ovld
 
     if shape.get("values"):
         return make_run_values(W, shape)
+    if shape.get("wide"):
+        return make_run_wide(W, shape)
     n = shape["n"]
     methods = shape["methods"]
     M = len(methods)
@@ -239,9 +288,9 @@ def gen_shapes(tier, seed):
     for f in (shapes, fw, dep):
         rng.shuffle(f)
     if tier == "quick":
-        out = shapes[:25] + fw[:20] + dep[:25] + two[:30] + [dict(n=n, L=3, values=True, methods=[])]
+        out = shapes[:25] + fw[:20] + dep[:25] + two[:30] + [dict(n=n, L=3, values=True, methods=[]), dict(n=n, L=3, wide=1200, methods=[])]
     else:
-        out = shapes[:900] + fw[:700] + dep[:900] + two[:1200] + [dict(n=n, L=3, values=True, methods=[])]
+        out = shapes[:900] + fw[:700] + dep[:900] + two[:1200] + [dict(n=n, L=3, values=True, methods=[]), dict(n=n, L=3, wide=2600, methods=[])]
     return out, total, True
 
 
